@@ -49,3 +49,72 @@ theorem scrypt_nul_suffix (pw salt : Bytes) (logN r p dkLen : Nat) (h : pw.lengt
   rw [toBA_snoc, scrypt_push_zero _ _ _ _ _ _ (by rw [toBA_size]; exact h)]
 
 end AgeModel.Crypto
+
+namespace AgeModel.Crypto.Impl
+
+theorem pushBe32_size (a : ByteArray) (w : UInt32) : (pushBe32 a w).size = a.size + 4 := by
+  simp [pushBe32, ByteArray.size_push]
+
+theorem sha256BA_size (m : ByteArray) : (sha256BA m).size = 32 := by
+  unfold sha256BA
+  simp only [Id.run, pushBe32_size, bind, pure]
+  simp [ByteArray.emptyWithCapacity]
+  rfl
+
+/-- HMAC replaces a key longer than its block by the key's SHA-256 digest -/
+theorem hmacKeyBlock_long (p : ByteArray) (h : p.size > 64) : hmacKeyBlock p = hmacKeyBlock (sha256BA p) := by
+  unfold hmacKeyBlock
+  have h2 : ¬ (sha256BA p).size > 64 := by rw [sha256BA_size]; omega
+  simp only [h, h2, if_true, if_false]
+
+theorem pbkdf2_long (p salt : ByteArray) (iter dkLen : Nat) (h : p.size > 64) :
+    pbkdf2Sha256BA p salt iter dkLen = pbkdf2Sha256BA (sha256BA p) salt iter dkLen := by
+  unfold pbkdf2Sha256BA
+  rw [hmacKeyBlock_long p h]
+
+theorem scrypt_long (p salt : ByteArray) (logN r pp dkLen : Nat) (h : p.size > 64) :
+    scryptBA p salt logN r pp dkLen = scryptBA (sha256BA p) salt logN r pp dkLen := by
+  unfold scryptBA
+  simp only [pbkdf2_long _ _ _ _ h]
+
+end AgeModel.Crypto.Impl
+
+namespace AgeModel.Crypto
+open Impl
+
+theorem ofBA_go (b : ByteArray) : ∀ (i : Nat) (acc : List UInt8), i ≤ b.size →
+    ofBA.go b i acc = b.data.toList.take i ++ acc := by
+  intro i
+  induction i with
+  | zero => intro acc _; simp [ofBA.go]
+  | succ i ih =>
+    intro acc h
+    unfold ofBA.go
+    rw [ih _ (by omega)]
+    have hi : i < b.data.toList.length := by
+      have : b.data.toList.length = b.size := Array.length_toList
+      omega
+    have hget : b[i]! = b.data.toList[i] := by
+      have : i < b.size := h
+      simp [getElem!_pos, this, ByteArray.getElem_eq_getElem_data]
+    rw [hget, List.take_succ_eq_append_getElem hi]
+    simp
+
+theorem ofBA_eq (b : ByteArray) : ofBA b = b.data.toList := by
+  unfold ofBA
+  rw [ofBA_go b b.size [] (Nat.le_refl _)]
+  have : b.data.toList.length = b.size := Array.length_toList
+  rw [List.append_nil, ← this, List.take_length]
+
+theorem toBA_ofBA (b : ByteArray) : toBA (ofBA b) = b := by
+  rw [ofBA_eq]
+  unfold toBA
+  apply ByteArray.ext
+  simp
+
+theorem scrypt_long_passphrase (pw salt : Bytes) (logN r p dkLen : Nat) (h : pw.length > 64) :
+    scrypt pw salt logN r p dkLen = scrypt (sha256 pw) salt logN r p dkLen := by
+  unfold scrypt sha256
+  rw [toBA_ofBA, scrypt_long _ _ _ _ _ _ (by rw [toBA_size]; exact h)]
+
+end AgeModel.Crypto
